@@ -84,6 +84,21 @@ class PusTcUnit(_SpUnit):
     def build(self, r):
         return _ecss().PusTc(r["svc"], r["sub"], apid=r["apid"], app_data=bb(r["data"]), seq_count=r["seq"], source_id=r["src"], ack_flags=r["ack"])
 
+    def alt_builders(self):
+        from spacepackets.ccsds.spacepacket import PacketType, SpacePacketHeader
+
+        m = _ecss()
+
+        def sph(r):
+            return m.PusTc.from_sp_header(SpacePacketHeader(PacketType.TC, r["apid"], r["seq"], 0), r["svc"], r["sub"], bb(r["data"]), r["src"], r["ack"])
+
+        def comp(r):
+            d = bb(r["data"])
+            return m.PusTc.from_composite_fields(SpacePacketHeader(PacketType.TC, r["apid"], r["seq"], 5 + len(d) + 1, True),
+                                                 m.PusTcDataFieldHeader(r["svc"], r["sub"], r["src"], r["ack"]), d)
+
+        return [("from_sp_header", sph), ("from_composite_fields", comp)]
+
     def ref(self, r):
         return RP.tc(r["svc"], r["sub"], r["apid"], r["seq"], r["src"], r["ack"], bb(r["data"]))
 
@@ -161,13 +176,29 @@ class PusTmUnit(_SpUnit):
         out.append(mk(5, 1, 0x7FF, 0x3FFF, 0xFFFF, 0xFFFF, 15, 7, bytes([0x20, 17, 2, 0, 0, 0, 0]), bytes([0x20, 1, 1, 0])))
         out.append(mk(0, 0, 0, 0, 0, 0, 0, 0, bytes(7), b"\x00\x00"))
         out.append(mk(255, 255, 0x7FF, 0x3FFF, 0xFFFF, 0xFFFF, 15, 7, b"", b"\xff\xff\xff\xff"))
-        if tier == "thorough":
-            for i, L in enumerate((1, 2, 6, 8, 12, 16)):
+        # timestamp lengths other than 0 and 7 (a decoder that assumes the 7 octets of CDS short goes wrong only here; the longer
+        # ones reach past the CRC into the neighbouring octets)
+        for i, L in enumerate((1, 2, 6, 8, 12, 16)):
+            if tier == "thorough" or L in (2, 12, 16):
                 out.append(mk(E8[i], E8[-1 - i], E11[i], E14[i], E16[i], E16[-1 - i], E4[i], i, payload(L, 64 + i), payload(i % 5, 80 + i)))
         return out
 
     def build(self, r):
         return _ecss().PusTm(r["svc"], r["sub"], bb(r["ts"]), bb(r["data"]), r["apid"], r["seq"], r["mc"], r["tref"], r["dest"], r["ver"])
+
+    def alt_builders(self):
+        from spacepackets.ccsds.spacepacket import PacketType, SequenceFlags, SpacePacketHeader
+
+        m = _ecss()
+
+        def comp(r):
+            ts, d = bb(r["ts"]), bb(r["data"])
+            return m.PusTm.from_composite_fields(
+                SpacePacketHeader(PacketType.TM, r["apid"], r["seq"], 7 + len(ts) + len(d) + 2 - 1, True, SequenceFlags.UNSEGMENTED, r["ver"]),
+                m.PusTmSecondaryHeader(service=r["svc"], subservice=r["sub"], timestamp=ts, message_counter=r["mc"], dest_id=r["dest"],
+                                       spacecraft_time_ref=r["tref"]), d)
+
+        return [("from_composite_fields", comp)]
 
     def ref(self, r):
         return RP.tm(r["svc"], r["sub"], bb(r["ts"]), bb(r["data"]), r["apid"], r["seq"], r["mc"], r["tref"], r["dest"], r["ver"])
